@@ -282,13 +282,25 @@ func runChild(prop, tier, only, resultPath string, seed int) {
 		res.Msg = "ssa function not found"
 		return
 	}
+	if meta == nil {
+		res.Msg = "harness not found"
+		return
+	}
 	e := NewExec(prog)
 	e.ufApps = map[string][][2]*Term{}
 	e.harness = only
-	e.solver = NewIncSolver("z3")
+	inc := "z3"
+	if meta.Solver == "z3new" {
+		inc = "z3new"
+	}
+	e.solver = NewIncSolver(inc)
 	defer e.solver.Close()
 	if meta.Unroll > 0 {
 		e.unroll = meta.Unroll
+	}
+	if meta.Opts["ints"] == "math" {
+		mathInts = true
+		res.Bounds["integers"] = "mathematical integers (no wrap-around modelled; harness bounds keep values far below 2^63)"
 	}
 	if meta.FP == "relaxed" {
 		e.fpRelaxed = true
